@@ -4,17 +4,22 @@
  *  PART 1: crypto_scalarmult_curve25519 returns -1 <=> the back end failed or
  *          the 32 output bytes are all zero (back end stubbed, all outputs);
  *  PART 2: fe25519_frombytes ignores bit 255; fe25519_tobytes(frombytes(s))
- *          is the canonical (fully reduced) encoding of s mod p for all s. */
+ *          is the canonical (fully reduced) encoding of s mod p for all s;
+ *  PART 3: fe25519_tobytes on ARBITRARY carried limbs (each < 2^52): the bytes are
+ *          the canonical encoding of (sum h_i 2^(51 i)) mod p;
+ *  PART 4: fe25519_cswap(f, g, b), b in {0, 1}: exchanges f and g iff b = 1, for all limbs. */
 #include "verif.h"
 #include "misuse.h"
 #include "crypto_scalarmult_curve25519.h"
-#if PART == 0 || PART == 2
+#if PART == 0 || PART == 2 || PART == 3 || PART == 4
 # include "crypto_scalarmult/curve25519/ref10/x25519_ref10.c"
 #endif
 
 struct IN {
-    uint8_t s[32], q[32], n[32];
-    int32_t ret;
+    uint8_t  s[32], q[32], n[32];
+    int32_t  ret;
+    uint64_t f[5], g[5];
+    uint32_t b;
 };
 
 #if PART == 1
@@ -82,7 +87,7 @@ VERIF_MAIN
         if (in.ret == 0) CHECK(v_eq(q, in.q, 32), "output is the back end's result");
         CHECK(crypto_scalarmult_curve25519_base(q, in.n) == 0 && v_eq(q, in.q, 32), "base-point form never fails");
     }
-#else
+#elif PART == 2
     {
         /* 256-bit arithmetic on wide bit-vectors; p = 2^255 - 19 */
         typedef unsigned __CPROVER_bitvector[264] w_t;
@@ -103,6 +108,34 @@ VERIF_MAIN
         r = v >= p ? v - p : v; /* v < 2^255 < 2p */
         CHECK(o == r, "tobytes(frombytes(s)) = (s mod 2^255) mod p, fully reduced (non-canonical inputs are reduced)");
         CHECK(o < p, "encoding is canonical");
+    }
+#elif PART == 3
+    {
+        typedef unsigned __CPROVER_bitvector[264] w_t;
+        fe25519 h;
+        uint8_t out[32];
+        w_t     v = 0, o = 0, p = ((w_t) 1 << 255) - 19, m255 = ((w_t) 1 << 255) - 1;
+        for (i = 0; i < 5; i++) {
+            ASSUME(in.f[i] < (1ULL << 52));
+            h[i] = in.f[i];
+            v += (w_t) in.f[i] << (51 * i);
+        }
+        fe25519_tobytes(out, h);
+        for (i = 31; i >= 0; i--) o = (o << 8) | (w_t) out[i];
+        v = (v & m255) + 19 * (v >> 255);       /* v < 2^257 */
+        v = (v & m255) + 19 * (v >> 255);
+        if (v >= p) v -= p;
+        CHECK(o == v && o < p, "fe25519_tobytes = canonical encoding of the limb value mod 2^255-19");
+    }
+#elif PART == 4
+    {
+        fe25519 f, g;
+        ASSUME(in.b <= 1);
+        for (i = 0; i < 5; i++) { f[i] = in.f[i]; g[i] = in.g[i]; }
+        fe25519_cswap(f, g, in.b);
+        for (i = 0; i < 5; i++) {
+            CHECK(f[i] == (in.b ? in.g[i] : in.f[i]) && g[i] == (in.b ? in.f[i] : in.g[i]), "fe25519_cswap exchanges the operands iff b = 1");
+        }
     }
 #endif
     (void) i;
